@@ -416,10 +416,7 @@ class DAGRunConcurrentManager(DAGRunManagerLike):
         Get the node's dependencies
         """
 
-        node_predecessors = set(self.dag.graph.predecessors(node_id))
-        current_dag = set(nx.topological_sort(dag))
-
-        return current_dag.intersection(node_predecessors)
+        return set(dag.predecessors(node_id))
 
     def _get_predecessors(self, dag: DiGraph, node_id: NodeId) -> t.List[NodeId]:
         """
